@@ -157,6 +157,7 @@ func (p *ProjectRunner) runProcess(config *types.ProcessConfig) {
 			log.Error().Msgf("Error: process %s won't run", proc.getName())
 			verifPoint(proc, "skip")
 			proc.wontRun()
+			p.addDoneProcess(proc)
 			p.onProcessSkipped(proc.procConf)
 		} else {
 			exitCode := proc.run()
